@@ -2,12 +2,12 @@ package rules
 
 import (
 	"fmt"
-	"go/constant"
 	"go/token"
 	"go/types"
 	"strings"
 
 	"verifchk/internal/an"
+	"verifchk/internal/load"
 
 	"golang.org/x/tools/go/ssa"
 )
@@ -31,6 +31,8 @@ func runC02(c *an.Ctx) {
 	// shared with C12: an answer is credited to the pending call of its own (command id, target) pair only - an answer
 	// credited to another target's call hides that target's failure or silence from the transition
 	c.As(map[string]string{"R12e": "R02i"}, func() { r12e(c) })
+	c.As(map[string]string{"R12j": "R02j"}, func() { r12j(c) })
+	r02k(c)
 }
 
 // transitionDos returns the `do` methods of all implementers of environment.Transition.
@@ -125,21 +127,20 @@ func r02abcg(c *an.Ctx) {
 				if !isCall || an.MethodName(&call.Call) != "GetTasksStateChangedError" {
 					continue
 				}
-				for _, t := range an.ErrTests(call) {
-					// every return reachable from the non-nil edge (before anything else) returns that error
-					all := true
-					n := 0
-					for _, ret := range an.Returns(b.fn) {
-						if ret.Block() == t.NonNilSucc || (an.BlockReaches(t.NonNilSucc, ret.Block()) && t.NonNilSucc.Dominates(ret.Block())) {
-							n++
-							if an.Strip(an.RetVal(ret, 0)) != ssa.Value(call) {
-								all = false
-							}
-						}
+				// with the tasks' error set, every return that can be reached returns that error (possibly after it travelled
+				// through a result variable), never nil
+				fl := an.FlowFromFacts(call.Block(), nil, call)
+				all := true
+				n := 0
+				for _, ret := range fl.ReachedReturns() {
+					n++
+					v := an.RetVal(ret, 0)
+					if v == nil || !an.DerivesFrom(v, call) || fl.NilCanReach(v, ret, call) {
+						all = false
 					}
-					if all && n > 0 {
-						ok = true
-					}
+				}
+				if all && n > 0 {
+					ok = true
 				}
 			}
 			c.Ob(fmt.Sprintf("core/environment.%s.do|error-returned#%d", b.name, i+1), r.Pos(), ok, "a non-nil task error in the answer must be returned (it cancels the FSM event); it must not be dropped or replaced by nil")
@@ -465,7 +466,7 @@ func r02f(c *an.Ctx) {
 		}
 		for _, v := range []ssa.Value{a.X, a.Y} {
 			if cst, ok := v.(*ssa.Const); ok && cst.Value != nil && strings.HasSuffix(cst.Type().String(), "task.Status") {
-				if k, ok := constant.Int64Val(cst.Value); ok && k == *active {
+				if k, ok := an.Int64Of(cst.Value); ok && k == *active {
 					return true
 				}
 			}
@@ -572,11 +573,71 @@ func r02h(c *an.Ctx) {
 		return an.MethodName(ci.Common()) == "do" && ci.Common().IsInvoke()
 	}) {
 		call := ci.(*ssa.Call)
+		cancelIn := map[*ssa.BasicBlock]bool{}
 		for _, cn := range an.CallsNamed(cl, fsmCancel) {
 			if cancelArgIs(cn, call) && an.KnownNonNil(cn.Block(), call) {
 				ok = true
+				cancelIn[cn.Block()] = true
+			}
+		}
+		// and on every path: with a non-nil error no return is reached without passing a Cancel of that error
+		fl := an.FlowFromFacts(call.Block(), func(b *ssa.BasicBlock, succ int) bool { return cancelIn[b] }, call)
+		for _, r := range fl.ReachedReturns() {
+			if !cancelIn[r.Block()] {
+				ok = false
 			}
 		}
 	}
-	c.Ob("(*core/environment.Environment).handlerFunc[closure]|error-cancels-event", cl.Pos(), ok, "a non-nil error of transition.do must be passed to e.Cancel so that the FSM stays in the source state")
+	c.Ob("(*core/environment.Environment).handlerFunc[closure]|error-cancels-event", cl.Pos(), ok, "a non-nil error of transition.do must be passed to e.Cancel on every path (no return reachable with the error set and the event not cancelled) so that the FSM stays in the source state")
+}
+
+// R02k: DEPLOY succeeds iff every critical task became active *in time*: a critical task is declared UNDEPLOYABLE to
+// its role (which aborts the DEPLOY at once) only when the deployment attempts are over, not after an attempt that
+// will be retried.
+func r02k(c *an.Ctx) {
+	c.Rule("R02k", "acquireTasks: a role is told UNDEPLOYABLE only outside the loop of deployment attempts", 1)
+	fn := c.MustFn("core/task", "Manager.acquireTasks")
+	if fn == nil {
+		return
+	}
+	und := lookupConstInt(c, load.ModulePath+"/core/task", "UNDEPLOYABLE")
+	// the attempts loop: the outermost natural loop containing the hand-over of the deployment request to the scheduler
+	var attempts map[*ssa.BasicBlock]bool
+	an.Instrs(fn, func(in ssa.Instruction) {
+		snd, ok := in.(*ssa.Send)
+		if !ok || !strings.HasSuffix(snd.Chan.Type().String(), "ResourceOffersDeploymentRequest") {
+			return
+		}
+		for _, h := range fn.Blocks {
+			if body := an.NaturalLoop(h); body[snd.Block()] && len(body) > len(attempts) {
+				attempts = body
+			}
+		}
+	})
+	if und == nil || attempts == nil {
+		c.Lost("the UNDEPLOYABLE status constant or the deployment attempts loop of acquireTasks")
+		return
+	}
+	c.Subject()
+	var inside []string
+	n := 0
+	an.Instrs(fn, func(in ssa.Instruction) {
+		call, ok := in.(ssa.CallInstruction)
+		if !ok || an.MethodName(call.Common()) != "UpdateStatus" || len(call.Common().Args) == 0 {
+			return
+		}
+		k, isK := call.Common().Args[len(call.Common().Args)-1].(*ssa.Const)
+		if !isK || k.Value == nil {
+			return
+		}
+		if v, exact := an.Int64Of(k.Value); !exact || v != *und {
+			return
+		}
+		n++
+		if attempts[in.Block()] {
+			inside = append(inside, c.PosStr(in.Pos()))
+		}
+	})
+	c.Ob("(*core/task.Manager).acquireTasks|undeployable-after-attempts", fn.Pos(), len(inside) == 0,
+		"a role is told UNDEPLOYABLE at %v, inside the loop of deployment attempts (%d notification sites): the DEPLOY transition aborts on the first attempt that cannot place a critical task although a later attempt within the timeout would have placed it", inside, n)
 }
